@@ -444,6 +444,7 @@ async def caller_script(api, world, name, caller):
                     wire.push(world.now, EOF)
                     wire.peer_closed = True
                     world.log("srv_forced_close", wire.id)
+                    world.stats["hostile:forced_close"] += 1
         else:
             raise HarnessError(f"unknown op {k}")
     world.log("caller_done", name)
@@ -473,6 +474,9 @@ async def probe_requests(api, world, scn, n, tag="probe"):
 
 
 def finish(result, world):
+    from .oracles import stats_faulty
+
+    world.stats_faulty = stats_faulty(world)
     result.world = world
     result.outcomes = world.outcomes
     result.violations = list(world.violations)
